@@ -85,8 +85,8 @@ def jobs(tier):
                           timeout=900, **dict(common, remove=["m_ctx", "call_pubsub_cb"] if rec else ["m_ctx"])))
     # (3) descriptor sources are always high priority (src.c registration path)
     fdflags = {"unspec": "0", "high": "M_SRC_PRIO_HIGH", "high_autoclose_oneshot": "(M_SRC_PRIO_HIGH|M_SRC_FD_AUTOCLOSE|M_SRC_ONESHOT)",
-               "unspec_autofree": "M_SRC_AUTOFREE"}
-    for nm in (["unspec", "high_autoclose_oneshot"] if quick else list(fdflags)):
+               "unspec_autofree": "M_SRC_AUTOFREE", "dup": "M_SRC_DUP", "dup_autoclose": "(M_SRC_DUP|M_SRC_FD_AUTOCLOSE)"}
+    for nm in (["unspec", "high_autoclose_oneshot", "dup"] if quick else list(fdflags)):
         js.append(Job("C13.fd.k1.%s" % nm, "l1/c13_fd.c", defines=dict(pd, K=1, VF_FLAGS=fdflags[nm]),
                       unwind=5, unwindset=RECUR, fp=core_fp(mem_dtors=[EVT_DTOR, SRC_DTOR], on_evt=["on_evt"]),
                       symbolic=["batch size (size_t)", "batch timeout (u64)", "clock"],
